@@ -1,0 +1,11 @@
+//go:build !verif
+
+// Package verifhook provides yield points for the external verification harness.
+// Without the `verif` build tag all of its functions are empty and get inlined away.
+package verifhook
+
+// At marks a yield point
+func At(point string, key string) {}
+
+// Obj announces an internal object to the harness
+func Obj(kind string, v any) {}
